@@ -15,9 +15,10 @@ import (
 )
 
 func C15(c *Ctx) {
-	c.R.Explanation = "Decides structural necessary conditions of 'reported changes suffice' for package sio: (R1) report and apply are paired — in RunMachine every path from the assignment of the live machine's state to a return also records that state in the change cache (and vice versa), SetMachine applies a given state to an existing machine as well as recording it, DeleteMachine both removes the machine and records the deletion, and one crew operation performs its updates before its deletions (a deletion flag is never cleared by a later update within the same report); (R2) every persisted field of Changed is propagated by GetChanged, a reported deletion also forgets the last-reported record used for duplicate suppression, the reference consumer applies every persisted field, and the boot path hands every persisted field of a stored machine to SetMachine. (R3) anywhere in package sio, an assignment of the State or SpecSource of a machine that can be a member of Crew.Machines is covered, under the facts holding at the assignment, by a record of the same field in the change cache in the same function (before it on every path, or after it on every path), except the initialisation of an absent (nil) field. Equality of a rebuilt crew's behaviour is not decided."
+	c.R.Explanation = "Decides structural necessary conditions of 'reported changes suffice' for package sio: (R1) report and apply are paired — in RunMachine every path from the assignment of the live machine's state to a return also records that state in the change cache (and vice versa), SetMachine applies a given state to an existing machine as well as recording it, DeleteMachine both removes the machine and records the deletion, and one crew operation performs its updates before its deletions (a deletion flag is never cleared by a later update within the same report); (R2) every persisted field of Changed is propagated by GetChanged, a reported deletion also forgets the last-reported record used for duplicate suppression, the reference consumer applies every persisted field, and the boot path hands every persisted field of a stored machine to SetMachine. (R3) anywhere in package sio, an assignment of the State or SpecSource of a machine that can be a member of Crew.Machines is covered, under the facts holding at the assignment, by a record of the same field in the change cache in the same function (before it on every path, or after it on every path), except the initialisation of an absent (nil) field. (R4) every successful return of RunMachine returns the result of its core Walk call (no live-only shortcut can answer for the machine), and that walk starts from the machine's recorded State with the machine's current spec. Equality of a rebuilt crew's behaviour is not decided."
 	c.R.Rule("C15-R1", "E3", "report and apply are paired", 5)
 	c.R.Rule("C15-R2", "E6", "field exhaustiveness of the change report and its consumers", 6)
+	c.R.Rule("C15-R4", "E3", "a crew's reaction is a walk from the recorded state: RunMachine returns only what Walk returned, walked from Machine.State", 2)
 	c.R.Rule("C15-R3", "E3", "who may change a live machine: every assignment of a crew machine's persisted fields anywhere in package sio is covered by a change record", 3)
 	runM := c.fn("sio", "Crew", "RunMachine")
 	setM := c.fn("sio", "Crew", "SetMachine")
@@ -161,6 +162,7 @@ func C15(c *Ctx) {
 	okOrder := setCall != nil && delCall != nil && flow.Reachable(setCall.Block(), delCall.Block(), nil) && !flow.Reachable(delCall.Block(), setCall.Block(), nil)
 	c.R.Check(okOrder, "C15-R1", "DoOp: updates are applied before deletions", c.P.Pos(doOp.Pos()), "no path from a deletion to an update within one operation", "within one crew operation a deletion can precede an update of the same machine: the deletion flag then hides the update from the report although the machine is live")
 	c15Writers(c, change)
+	c15Walks(c, runM)
 	// ---- R2 exhaustiveness
 	sioPkg := c.P.ByPath[prog.Abs("sio")]
 	chT, _ := sioPkg.Types.Scope().Lookup("Changed").Type().Underlying().(*types.Struct)
@@ -400,5 +402,74 @@ func c15Writers(c *Ctx, change *ssa.Function) {
 				c.R.Check(covered, "C15-R3", key, c.pos(in), "covered by a record of Changed."+rf+" in the same function", "the "+mf+" of "+why+" is assigned without the assignment being recorded in the change cache on that path: the store keeps the old "+mf)
 			}
 		})
+	}
+}
+
+// c15Walks: C15-R4.
+func c15Walks(c *Ctx, runM *ssa.Function) {
+	walk := c.P.Func("core", "Spec", "Walk")
+	scope := pkgClosure(runM)
+	var calls []*ssa.Call
+	for _, f := range scope {
+		if prog.PkgOf(f) != "sio" {
+			continue
+		}
+		ssau.Instrs(f, func(in ssa.Instruction) {
+			if cl, ok := in.(*ssa.Call); ok && cl.Common().StaticCallee() == walk {
+				calls = append(calls, cl)
+			}
+		})
+	}
+	if len(calls) == 0 {
+		c.R.Break("C15-R4: RunMachine does not reach core Spec.Walk")
+		return
+	}
+	isWalkResult := func(v ssa.Value) bool {
+		ex, ok := v.(*ssa.Extract)
+		if !ok || ex.Index != 0 {
+			return false
+		}
+		for _, cl := range calls {
+			if ex.Tuple == ssa.Value(cl) {
+				return true
+			}
+		}
+		return false
+	}
+	ri := 0
+	for _, b := range runM.Blocks {
+		ret, ok := b.Instrs[len(b.Instrs)-1].(*ssa.Return)
+		if !ok || len(ret.Results) != 2 {
+			continue
+		}
+		ri++
+		key := fmt.Sprintf("RunMachine:return#%d", ri)
+		if provablyNil(ret.Results[0], b) {
+			c.R.Discharge("C15-R4", key, c.pos(ret), "returns no walk (error path)")
+			continue
+		}
+		okAll := true
+		ds := deepDefs(ret.Results[0], scope)
+		for _, d := range ds {
+			if !isWalkResult(d) && !ssau.IsNilConst(d) {
+				okAll = false
+			}
+		}
+		c.R.Check(okAll && len(ds) > 0, "C15-R4", key, c.pos(ret), "the returned walk is the result of core Walk", "RunMachine can answer for a machine without walking it from its recorded state (the answer then depends on crew-internal state that a store cannot reproduce)")
+	}
+	for i, cl := range calls {
+		args := cl.Common().Args // spec, ctx, st, msgs, ctl, props
+		okState := false
+		if len(args) >= 3 {
+			okState = true
+			ds := deepDefs(args[2], scope)
+			for _, d := range ds {
+				if _, is := ssau.LoadOfField(d, prog.Abs("crew"), "Machine", "State"); !is {
+					okState = false
+				}
+			}
+			okState = okState && len(ds) > 0
+		}
+		c.R.Check(okState, "C15-R4", fmt.Sprintf("RunMachine:Walk#%d starts from Machine.State", i+1), c.pos(cl), "state operand is the machine's State field", "the walk does not start from the machine's recorded state")
 	}
 }
